@@ -130,6 +130,21 @@ class Signs:
         return out
 
 
+def find_denominator(f: Func, w0: ast.Call, parents) -> Optional[ast.expr]:
+    """D if the np.where result is divided by D: either directly `np.where(..) / D` or through a name
+    `r = np.where(..)` ... `r / D`"""
+    p = parents.get(id(w0))
+    if isinstance(p, ast.BinOp) and isinstance(p.op, ast.Div) and p.left is w0:
+        return p.right
+    if isinstance(p, (ast.Assign, ast.AnnAssign)):
+        t = p.targets[0] if isinstance(p, ast.Assign) else p.target
+        if isinstance(t, ast.Name):
+            for x in walk_no_nested(f.node):
+                if isinstance(x, ast.BinOp) and isinstance(x.op, ast.Div) and isinstance(x.left, ast.Name) and x.left.id == t.id:
+                    return x.right
+    return None
+
+
 def _masked_nonzero(f: Func, cond_left: ast.expr) -> bool:
     """the condition variable is selected by a mask defined as `v != 0`"""
     if not isinstance(cond_left, ast.Subscript):
@@ -174,8 +189,7 @@ def rule_sign(ctx: Ctx) -> List[Ob]:
         for w0 in walk_no_nested(f.node):
             if isinstance(w0, ast.Call) and dotted(w0.func) == "np.where" and len(w0.args) == 3 and \
                     any(isinstance(x, ast.Name) and x.id in ("lb", "ub") for a in w0.args[1:] for x in ast.walk(ex.expand_at(w0, a))):
-                p = parents.get(id(w0))
-                denom = p.right if isinstance(p, ast.BinOp) and isinstance(p.op, ast.Div) and p.left is w0 else None
+                denom = find_denominator(f, w0, parents)
                 w = ex.expand_at(w0, w0)       # temporaries (masks, selected directions) inlined
                 denom = ex.expand_at(w0, denom) if denom is not None else None
                 # IfExp wrapper:  (where(...) / v) if cond else 1.0
@@ -294,9 +308,37 @@ def rule_alpha(ctx: Ctx) -> List[Ob]:
     need(al is not None, "ALPHA: truncation factor not found")
     name, st = al
     v = st.value
-    ok = isinstance(v, ast.Call) and dotted(v.func) in ("min", "np.minimum") and len(v.args) == 2
+    from ..flow import Expander
+    fx = Expander(ctx, f)
+    helper = None
+    if isinstance(v, ast.Call) and isinstance(v.func, ast.Name) and f"subspacemin.{v.func.id}" in ctx.repo.funcs:
+        # the factor is computed by a helper of the module: every value it returns must be in [0, 1]
+        helper = ctx.repo.funcs[f"subspacemin.{v.func.id}"]
+        hx = Expander(ctx, helper)
+        vals = [r.value for r in walk_no_nested(helper.node) if isinstance(r, ast.Return) and r.value is not None]
+        okh, whyh = bool(vals), []
+        for rv in vals:
+            e = hx.expand_at(rv, rv)
+            if isinstance(e, ast.Constant) and isinstance(e.value, (int, float)) and 0 <= e.value <= 1:
+                whyh.append(f"{e.value}")
+                continue
+            good = isinstance(e, ast.Call) and dotted(e.func) in ("min", "np.minimum") and len(e.args) == 2 and \
+                any(isinstance(a, ast.Constant) and 0 <= a.value <= 1 for a in e.args)
+            if good:
+                other = [a for a in e.args if not isinstance(a, ast.Constant)][0]
+                sg = _sign_with_where(Signs("lb", "ub", {"xc", "x"}), other)
+                good = sg in (NONNEG, POS, ZERO)
+                whyh.append(f"min(cap, e) with sign(e) = {sg}")
+            else:
+                whyh.append(f"{short(e, 50)}: not min(<constant in [0,1]>, e)")
+            okh = okh and good
+        obs.append(ob("ALPHA", "truncation factor lies in [0, 1]", f, st, okh,
+                      f"{name} = {short(v, 60)}; values returned by {helper.name}: {whyh}", construct=f"{name} = min(1.0, <ratio>)"))
+    ok = helper is None and isinstance(v, ast.Call) and dotted(v.func) in ("min", "np.minimum") and len(v.args) == 2
     why = f"{name} = {short(v, 80)}"
-    if ok:
+    if helper is not None:
+        pass
+    elif ok:
         consts = [a for a in v.args if isinstance(a, ast.Constant)]
         others = [a for a in v.args if not isinstance(a, ast.Constant)]
         ok = len(consts) == 1 and isinstance(consts[0].value, (int, float)) and 0 <= consts[0].value <= 1 and len(others) == 1
@@ -310,7 +352,8 @@ def rule_alpha(ctx: Ctx) -> List[Ob]:
             why += ": not min(<constant in [0,1]>, e)"
     else:
         why += ": not a min(...) -- a factor above 1 overshoots the model minimiser, a missing cap leaves the box"
-    obs.append(ob("ALPHA", "truncation factor lies in [0, 1]", f, st, ok, why, construct=f"{name} = min(1.0, <ratio>)"))
+    if helper is None:
+        obs.append(ob("ALPHA", "truncation factor lies in [0, 1]", f, st, ok, why, construct=f"{name} = min(1.0, <ratio>)"))
     rets = [r for r in walk_no_nested(f.node) if isinstance(r, ast.Return) and r.value is not None and
             any(isinstance(x, ast.Name) and x.id == name for x in ast.walk(r.value))]
     okr = len(rets) == 1
@@ -352,6 +395,7 @@ def rule_free(ctx: Ctx) -> List[Ob]:
     rd = ctx.rd(f)
     rets = [n for n in cfg.nodes if n.kind == "stmt" and isinstance(n.ast, ast.Return) and isinstance(n.ast.value, ast.Tuple)]
     need(len(rets) >= 1, "FREE: get_freev does not return a tuple")
+    fret = rets[-1]
     fv_name = src(rets[-1].ast.value.elts[0])
 
     def resolve(n, e, depth=0):
@@ -406,18 +450,33 @@ def rule_free(ctx: Ctx) -> List[Ob]:
                       f"mask `{short(e, 70)}` covers sides {sorted(sides)}" + ("" if ok else
                       ": a variable resting on the untested bound is treated as free; the truncation ratio is then 0 and the solver stalls at the Cauchy point"),
                       construct=f"free_vars mask: {short(e, 70)}"))
-    av = None
-    for s in f.node.body:
-        if isinstance(s, (ast.Assign, ast.AnnAssign)) and getattr(s, "value", None) is not None:
-            t = s.targets[0] if isinstance(s, ast.Assign) else s.target
-            if isinstance(t, ast.Name) and t.id == "active_vars":
-                av = s
-    need(av is not None, "FREE: active_vars definition not found")
-    a_src = src(av.value).replace(" ", "")
-    okc = ("~np.isin(np.arange(n),free_vars)" in a_src) or ("np.setdiff1d(np.arange(n),free_vars)" in a_src) or \
+    # active set = complement of the free set
+    from ..flow import Expander
+    fxx = Expander(ctx, f)
+    free_masks = [src(m) for m in masks if m is not None]
+    adefs = [st_ for st_ in walk_no_nested(f.node) if isinstance(st_, (ast.Assign, ast.AnnAssign)) and getattr(st_, "value", None) is not None
+             and src(st_.targets[0] if isinstance(st_, ast.Assign) else st_.target) == "active_vars"]
+    need(len(adefs) == 1, "FREE: active_vars definition not found")
+    av = adefs[0]
+    a_exp = fxx.expand_at(av, av.value)
+    a_src = src(a_exp).replace(" ", "")
+    okc = ("~np.isin(np.arange(n),free_vars)" in src(av.value).replace(" ", "")) or ("np.setdiff1d(np.arange(n),free_vars)" in a_src) or \
         ("np.isin(np.arange(n),free_vars,invert=True)" in a_src)
+    if not okc and free_masks:
+        # (~mask).nonzero()[0] with the very mask of the free set
+        e2 = a_exp
+        if isinstance(e2, ast.Subscript):
+            e2 = e2.value
+        if isinstance(e2, ast.Call) and isinstance(e2.func, ast.Attribute) and e2.func.attr == "nonzero":
+            e2 = e2.func.value
+        elif isinstance(e2, ast.Call) and dotted(e2.func) in ("np.flatnonzero", "np.nonzero") and e2.args:
+            e2 = e2.args[0]
+        if isinstance(e2, ast.UnaryOp) and isinstance(e2.op, ast.Invert):
+            okc = src(e2.operand) in free_masks
+        elif isinstance(e2, ast.Call) and dotted(e2.func) == "np.logical_not" and e2.args:
+            okc = src(e2.args[0]) in free_masks
     obs.append(ob("FREE", "active set is the complement of the free set over all variables", f, av, okc,
-                  f"active_vars = {short(av.value, 80)}", construct="active_vars = complement(free_vars)"))
+                  f"active_vars = {short(a_exp, 80)}", construct="active_vars = complement(free_vars)"))
     g = ctx.repo.func("subspacemin.subspace_minimization")
     rets = [r for r in walk_no_nested(g.node) if isinstance(r, ast.Return) and r.value is not None and
             any(isinstance(x, ast.Name) and x.id == "dHat" for x in ast.walk(r.value))]
@@ -428,11 +487,18 @@ def rule_free(ctx: Ctx) -> List[Ob]:
     obs.append(ob("FREE", "the step enters the result only through the free-variable selection Z", g, rets[0] if rets else g.node, okz,
                   f"returns {short(rets[0].value) if rets else '?'}", construct="Z @ dHat"))
     # Z built from free_vars
-    zdef = [s for s in walk_no_nested(f.node) if isinstance(s, ast.Assign) and isinstance(s.targets[0], ast.Subscript)
-            and src(strip_sub(s.targets[0])) == "Z"]
-    okzz = len(zdef) == 1 and isinstance(zdef[0].targets[0].slice, ast.Tuple) and src(zdef[0].targets[0].slice.elts[0]) == "free_vars"
-    obs.append(ob("FREE", "selection matrix Z has its unit entries on the free variables", f, zdef[0] if zdef else f.node, okzz,
-                  f"{short(zdef[0]) if zdef else 'no store into Z'}", construct="Z[free_vars, arange] = 1"))
+    zname = src(fret.ast.value.elts[1]).split(".")[0]
+    zsrc = []
+    for st_ in walk_no_nested(f.node):
+        if isinstance(st_, (ast.Assign, ast.AnnAssign)) and getattr(st_, "value", None) is not None:
+            t_ = st_.targets[0] if isinstance(st_, ast.Assign) else st_.target
+            if src(t_) == zname and not (isinstance(st_.value, ast.Call) and dotted(st_.value.func) == "lil_matrix"):
+                zsrc.append(src(st_.value))
+            if isinstance(t_, ast.Subscript) and src(t_.value) == zname:
+                zsrc.append(src(t_.slice))
+    okzz = bool(zsrc) and all("free_vars" in z and "active_vars" not in z for z in zsrc)
+    obs.append(ob("FREE", "selection matrix Z has its unit entries on the free variables", f, fret.ast, okzz,
+                  f"{zname} is built from: {zsrc}", construct="Z[free_vars, arange] = 1"))
     return obs
 
 
